@@ -186,6 +186,7 @@ let () =
               let m = match toks.(0) with
                 | "LSDInt" -> lSDInt a | "MSDInt" -> mSDInt a
                 | "LSDUint" -> lSDUint a | "MSDUint" -> mSDUint a
+                | "Native" -> Ok (ref_sort Z.leb a)   (* slices.Sort: the spec-level order is Go's native order *)
                 | _ -> Ok a in
               let ms = show_res (fun v -> hex64 (bits_of_z v)) m in
               if res <> ms then report "api" (Printf.sprintf "implementation %s, proved model (= the sorted slice) %s" res ms)
@@ -194,6 +195,7 @@ let () =
               let in_domain = ref true in
               let m = match toks.(0) with
                 | "MSDString" -> mSDString a
+                | "Native" -> Ok (ref_sort str_leb a)
                 | "VQuick3WayString" -> quick3WayStringCore a
                 | "Quick3WayString" -> quick3WayString (fun _ -> Z0) a
                 | "LSDString" ->
